@@ -8,7 +8,7 @@ from vf import c16, xdoc, xgen
 from vf.runner import exc_sig, hyp_run
 
 PROPERTY = "C17"
-LEVEL = "exploration"
+LEVEL = "fault_enumeration"
 RULE = ("Hypothesis generates documents (containers with nesting, reuse of nested containers and >= 2 inheritance "
         "levels) and, for each, EVERY applicable single-point corruption from the operator list is applied at EVERY "
         "applicable site (quick tier: every operator at every 6th site with a drawn phase): rename one parameterRef of an entry / one parameterTypeRef / one base containerRef / one "
